@@ -39,7 +39,7 @@ class AddrAlloc:
     def __init__(self, rng, aw):
         self.rng = rng
         self.aw = aw
-        self.cur = rng.choice([0, 0, 0x1000, 0x8000_0000 if aw >= 40 else 0x100])
+        self.cur = rng.choice([0, 0, 0x1000 if aw >= 20 else 0x40, 0x8000_0000 if aw >= 40 else 0x100])
         self.top = 1 << aw
 
     def take(self, size, count=1):
@@ -90,8 +90,11 @@ def mk_ranges(rng, alloc, count, is_array):
         if is_array:
             r = {"base": base, "size": size}
         else:
-            style = rng.choice(["base_size", "start_end", "start_size", "start_end_size"])
-            if style == "base_size":
+            style = rng.choice(["base_size", "start_end", "start_size", "start_end_size", "base_size_idx"])
+            if style == "base_size_idx" and base >= 3 * size:
+                k = rng.randint(1, 3)
+                r = {"base": base - k * size, "size": size, "idx": k}
+            elif style in ("base_size", "base_size_idx"):
                 r = {"base": base, "size": size}
             elif style == "start_end":
                 r = {"start": base, "end": base + size}
@@ -206,7 +209,7 @@ def names(rng, k):
 
 
 def gen_star(rng, algo, nettype, k=None):
-    aw = rng.choice([32, 48, 48, 40])
+    aw = rng.choice([32, 48, 48, 40, 34, 17, 64, rng.randint(16, 64)])
     cfg = base_cfg(rng, "star", nettype, algo, aw)
     alloc = AddrAlloc(rng, aw)
     k = k or rng.randint(2, 6)
@@ -270,7 +273,7 @@ def mesh_parts(rng, algo, nettype, alloc, m, n, rname, sides=None, partial_local
         c = flip_conn(c)
     conns.append(c)
     # a single endpoint hooked to one router by index (second local port)
-    if algo != "XY" and rng.random() < 0.2 and not partial_local:
+    if rng.random() < (0.2 if algo != "XY" else 0.04) and not partial_local:
         sname = nm[5]
         sep = mk_endpoint(rng, nettype, alloc, sname, force_role=rng.choice(["mgr", "dual", "sbr"]))
         eps.append(sep)
@@ -300,6 +303,12 @@ def mesh_parts(rng, algo, nettype, alloc, m, n, rname, sides=None, partial_local
         else:
             dr = [[0, m - 1], [n - 1, n - 1]]
         c = {"src": ename, "dst": rname, "src_range": [[0, length - 1]], "dst_range": dr}
+        if rng.random() < 0.3:
+            # reversed pairing: one side descends, the other ascends
+            if rng.random() < 0.5:
+                c["src_range"] = [[length - 1, 0]]
+            else:
+                c["dst_range"] = [[hi, lo] if lo != hi else [lo, hi] for lo, hi in dr]
         if use_dirs:
             c["dst_dir"] = side if rng.random() < 0.7 else side.upper()
         if rng.random() < 0.3:
@@ -318,7 +327,7 @@ def flip_conn(c):
 
 
 def gen_mesh(rng, algo, nettype, m=None, n=None, sides=None, partial_local=None):
-    aw = rng.choice([32, 48, 48])
+    aw = rng.choice([32, 48, 48, 34, rng.randint(20, 64)])
     cfg = base_cfg(rng, "mesh", nettype, algo, aw)
     alloc = AddrAlloc(rng, aw)
     m = m or rng.randint(1, 3)
@@ -415,7 +424,34 @@ def gen_custom(rng, algo, nettype):
     return finish(rng, cfg, eps, [{"name": r} for r in rts], conns)
 
 
+def gen_p2p(rng, algo, nettype):
+    """two endpoints wired back to back, no router at all"""
+    aw = 48
+    cfg = base_cfg(rng, "p2p", nettype, algo, aw)
+    alloc = AddrAlloc(rng, aw)
+    a, b = names(rng, 2)
+    ea = mk_endpoint(rng, nettype, alloc, a, force_role=rng.choice(["dual", "mgr"]))
+    eb = mk_endpoint(rng, nettype, alloc, b, force_role=rng.choice(["dual", "sbr"]))
+    return finish(rng, cfg, [ea, eb], [], [{"src": a, "dst": b}])
+
+
+def gen_split(rng, algo, nettype):
+    """two stars that are not connected to each other (floogen finds no path and rejects)"""
+    aw = 48
+    cfg = base_cfg(rng, "split", nettype, algo, aw)
+    alloc = AddrAlloc(rng, aw)
+    eps, conns = [], []
+    nm = names(rng, 4)
+    for i, r in enumerate(["ra", "rb"]):
+        for e in nm[2 * i: 2 * i + 2]:
+            eps.append(mk_endpoint(rng, nettype, alloc, e, force_role="dual"))
+            conns.append({"src": e, "dst": r})
+    return finish(rng, cfg, eps, [{"name": "ra"}, {"name": "rb"}], conns)
+
+
 FAMILIES = {
+    "p2p": gen_p2p,
+    "split": gen_split,
     "star": gen_star,
     "mesh": gen_mesh,
     "meshx": gen_mesh_extra,
@@ -447,6 +483,12 @@ def gen_case(rng, families=None, algos=None, nettypes=None):
         algo = rng.choice(algos or ["XY", "ID", "SRC"])
         if algo == "XY" and fam != "mesh":
             fam = "mesh"
+        if algo != "XY" and families is None or (families and "custom" in families and algo != "XY"):
+            u = rng.random()
+            if u < 0.03 and algo == "ID":
+                fam = "p2p"
+            elif u < 0.05:
+                fam = "split"
         nettype = rng.choice(nettypes or ["axi", "narrow-wide"])
         cfg = FAMILIES[fam](rng, algo, nettype)
         if cfg is not None and num_instances(cfg) < 2:
